@@ -35,9 +35,11 @@ def plan(seed, overrides=None):
         recipes[f"cdesc{i}"] = G.gen_cir_description(rr, degenerate=rr.random() < cfg["degenerate_rate"])
         recipes[f"doc{i}"] = G.gen_document_recipe(rr, python_form=True)
         # a twin that serialises to exactly the same number of bytes (only one digit differs)
-        recipes[f"doc{i}"]["v"]["_rev"] = 1
+        # (two digits, at the two ends of the document: a mixture of the two files is neither of them)
+        recipes[f"doc{i}"]["v"] = dict([("_aux", 5)] + list(recipes[f"doc{i}"]["v"].items()) + [("_rev", 1)])
         twin = copy.deepcopy(recipes[f"doc{i}"])
         twin["v"]["_rev"] = 2
+        twin["v"]["_aux"] = 6
         recipes[f"doc{i}t"] = twin
         recipes[f"ndoc{i}"] = G.gen_document_recipe(rr, python_form=False)
         if rr.random() < 0.25 and "alias" not in recipes[f"ndoc{i}"]:
